@@ -332,7 +332,9 @@ TEXT["C26"] = {
              "receive broker messages QoS 0/1 on them: every broker message reaches EXACTLY ONE handler invocation of the right "
              "subscription with its topic, payload and flags and is acknowledged; C26_programs_with_register_qos2_unsubscribe - the "
              "same with Register, Publish at QoS 0-2 on registered names and Unsubscribe, ending with the registrations of client "
-             "and gateway and the subscriptions of client and broker equal to the program's; C26_refuted - two broker messages in flight on one not-yet-registered topic: only "
+             "and gateway and the subscriptions of client and broker equal to the program's; "
+             "C26_message_on_a_new_topic_is_registered_and_delivered - one broker message on a name without topic ID is registered "
+             "and delivered; C26_refuted - two broker messages in flight on one not-yet-registered topic: only "
              "one reaches the handler (recorded finding, witness on the real code in every run). The other API calls, sleep "
              "cycles and handler delivery are NOT proved: the monitor clauses (26,1)-(26,4) check them on the real client + real "
              "gateway against the composed model on generated programs incl. bursts in flight.",
